@@ -96,7 +96,7 @@ class Driver(object):
         t = self.W.tape
         if first:
             return ("send", None)
-        c = t.weighted([8, 2, 1, 1, 1, 1])
+        c = t.weighted([14, 3, 1, 1, 1, 1])
         if c == 0:
             return ("send", None)
         if c == 1:
@@ -186,7 +186,7 @@ class Driver(object):
             if first:
                 c = 0
             else:
-                c = t.weighted([8, 2, 1, 1, 1])
+                c = t.weighted([14, 3, 1, 1, 1])
             if c == 0:
                 op = ag.asend(None)
                 self.schedule.append(("asend", None))
